@@ -42,9 +42,11 @@ BfExp(op, a) ==
          ELSE IF a.w \notin {1, 2, 4, 8} \/ Len(a.octets) < a.w THEN ExpRej(<<"value">>)
               ELSE [views |-> BfViews(a.w, Take(a.octets, a.w))]
     [] op = "bf.set" ->
+         \* a refused assignment leaves all views as they were ("after")
+         LET refused == [rej |-> <<"value">>, after |-> BfViews(a.w, a.v0)] IN
          IF a.by = "int"
-         THEN IF ~IntFitsU(a.x, a.w) THEN ExpRej(<<"value">>) ELSE [views |-> BfViews(a.w, ToWidth(a.x.mag, a.w))]
-         ELSE IF Len(a.octets) < a.w THEN ExpRej(<<"value">>) ELSE [views |-> BfViews(a.w, Take(a.octets, a.w))]
+         THEN IF ~IntFitsU(a.x, a.w) THEN refused ELSE [views |-> BfViews(a.w, ToWidth(a.x.mag, a.w))]
+         ELSE IF Len(a.octets) < a.w THEN refused ELSE [views |-> BfViews(a.w, Take(a.octets, a.w))]
     [] op = "bf.eq" ->
          [eq |-> (a.w1 = a.w2 /\ a.v1 = a.v2), hashok |-> TRUE]
     [] op = "ibc.unsigned" ->
